@@ -6,5 +6,6 @@ CONSTANTS
   Runs = 2
   FirstVisitCounts = TRUE
   WaitForVisited = TRUE
+  RootsAreEntries = TRUE
 INVARIANTS SweepBound FixedPoint Stable AllVisited
 CHECK_DEADLOCK FALSE
